@@ -3,6 +3,8 @@ package props
 import (
 	"bytes"
 	"fmt"
+	"os"
+	"path/filepath"
 	"time"
 
 	"lalverif/fw"
@@ -588,24 +590,180 @@ func c02JudgeTs(x *c02Ctx, rec *consumerRec) {
 	c.Cell("ts/%s/gop=%d", x.cs.Name, x.cs.gopOf("ts"))
 }
 
+// c02RtspJoin: an RTSP publisher (interleaved TCP) whose frames are fragmented into many RTP
+// packets, and RTSP subscribers whose PLAY completes between two packets of a frame - in particular
+// between two fragments of a key frame. lal forwards an RTSP publisher's packets one by one, so the
+// first video packet a subscriber gets must START a key-frame access unit (parameter set, or the
+// first fragment / whole NAL of an IRAP slice), never a middle or last fragment.
+func c02RtspJoin(c *fw.Ctx, k int) {
+	r := c.Rng
+	root := filepath.Join(c.Scratch, fmt.Sprintf("c02rtsp-%d", c.Index))
+	os.MkdirAll(root, 0755)
+	defer os.RemoveAll(root)
+	s, err := srv.Start(srv.Conf{Rtsp: true, RtspWaitKey: true}, root)
+	if err != nil {
+		c.Inconclusive("server start: %v", err)
+		return
+	}
+	defer s.Stop()
+	vc := []string{"avc", "hevc"}[k%2]
+	sp := gen.EsSpec{VCodec: vc, ACodec: []string{"aac", ""}[(k/2)%2], AacIdx: 4, AacChans: 2, AacObj: 2, NVideo: 36, GopLen: 6, AudioPer: 1, MaxNals: 1, BigNals: true}
+	src := c07BuildInc(r, sp, 3)
+	pk := c07RtspPackets(r, src, []int{200, 400, 1200}[k%3], false, 1, uint16(r.Intn(65536)))
+	name := fmt.Sprintf("rj%d", c.Index)
+	url := "rtsp://" + s.RtspAddr() + "/live/" + name
+	pub, err := ref.DialRtsp(s.RtspAddr(), 3*time.Second)
+	if err != nil {
+		c.Inconclusive("rtsp publisher: %v", err)
+		return
+	}
+	defer pub.Close()
+	sdp, controls := c07Sdp(src)
+	if err := pub.Announce(url, sdp, len(controls), controls, false, 3*time.Second); err != nil {
+		c.Inconclusive("rtsp announce: %v", err)
+		return
+	}
+	hevc := vc == "hevc"
+	// classify each video packet: start of a key-frame access unit / other
+	type cls struct{ video, fuMiddle, keyStart bool }
+	classify := func(pkt []byte) cls {
+		p, err := ref.ParseRtp(pkt)
+		if err != nil || len(p.Payload) < 3 {
+			return cls{}
+		}
+		b := p.Payload
+		if !hevc {
+			t := b[0] & 0x1f
+			switch {
+			case t == 28:
+				it := b[1] & 0x1f
+				return cls{video: true, fuMiddle: b[1]&0x80 == 0, keyStart: b[1]&0x80 != 0 && (it == 5 || it == 7 || it == 8)}
+			case t == 24:
+				it := b[3] & 0x1f
+				return cls{video: true, keyStart: it == 5 || it == 7 || it == 8}
+			default:
+				return cls{video: true, keyStart: t == 5 || t == 7 || t == 8}
+			}
+		}
+		t := b[0] >> 1 & 0x3f
+		isKeyT := func(x byte) bool { return (x >= 16 && x <= 21) || (x >= 32 && x <= 34) }
+		switch {
+		case t == 49:
+			it := b[2] & 0x3f
+			return cls{video: true, fuMiddle: b[2]&0x80 == 0, keyStart: b[2]&0x80 != 0 && isKeyT(it)}
+		case t == 48:
+			return cls{video: true, keyStart: len(b) > 4 && isKeyT(b[4]>>1&0x3f)}
+		default:
+			return cls{video: true, keyStart: isKeyT(t)}
+		}
+	}
+	// join positions: packets that are middle / last fragments of key frames first, then a seeded few others
+	var midKey, others []int
+	inKey := false
+	for n, o := range pk {
+		if o.track != 0 {
+			continue
+		}
+		cl := classify(o.pkt)
+		if cl.keyStart {
+			inKey = true
+		} else if !cl.fuMiddle {
+			inKey = false
+		}
+		if n > 8 && cl.fuMiddle && inKey {
+			midKey = append(midKey, n)
+		} else if n > 8 {
+			others = append(others, n)
+		}
+	}
+	joinAt := map[int]bool{}
+	for q := 0; q < 6 && len(midKey) > 0; q++ {
+		joinAt[midKey[r.Intn(len(midKey))]] = true
+	}
+	for q := 0; q < 4 && len(others) > 0; q++ {
+		joinAt[others[r.Intn(len(others))]] = true
+	}
+	var subs []*ref.RtspClient
+	var joinedAt []int
+	defer func() {
+		for _, x := range subs {
+			x.Close()
+		}
+	}()
+	for n, o := range pk {
+		if joinAt[n] {
+			// everything sent so far has been read by lal (a request/response round trip on the same
+			// connection is ordered behind the interleaved data)
+			pub.Request("OPTIONS", url, nil, nil, 2*time.Second)
+			if x, err := ref.DialRtsp(s.RtspAddr(), 2*time.Second); err == nil {
+				if _, err := x.Play(url, false, 3*time.Second); err == nil {
+					subs = append(subs, x)
+					joinedAt = append(joinedAt, n)
+				} else {
+					x.Close()
+				}
+			}
+		}
+		if pub.SendInterleaved(o.track*2, o.pkt) != nil {
+			c.Inconclusive("publisher connection closed by lal at packet %d", n)
+			return
+		}
+	}
+	pub.Request("OPTIONS", url, nil, nil, 2*time.Second)
+	time.Sleep(150 * time.Millisecond)
+	for q, x := range subs {
+		c.Eval(1)
+		c.Cell("rtsp-join/%s/%s", vc, map[bool]string{true: "mid-key-frame", false: "elsewhere"}[func() bool {
+			for _, m := range midKey {
+				if m == joinedAt[q] {
+					return true
+				}
+			}
+			return false
+		}()])
+		for _, rp := range x.Packets() {
+			if rp.Channel != 0 {
+				continue
+			}
+			cl := classify(rp.Data)
+			if !cl.video {
+				continue
+			}
+			if !cl.keyStart {
+				c.Violate("start/first-video-not-key-start/rtsp", fmt.Sprintf("an RTSP subscriber whose PLAY completed before the publisher's packet %d received as its first video packet one that does not start a key-frame access unit (middle/last fragment=%v, payload head % x) | codec=%s max payload=%d", joinedAt[q], cl.fuMiddle, rp.Data[12:min(len(rp.Data), 16)], vc, []int{200, 400, 1200}[k%3]), nil)
+				return
+			}
+			break
+		}
+		c.Count("rtsp_joiners_judged", 1)
+	}
+	if len(subs) == 0 {
+		c.Inconclusive("no RTSP subscriber could join")
+	}
+}
+
 func init() {
 	fw.Register(&fw.Prop{
 		ID: "C02",
 		NumCases: func(tier string, seed int64) int {
 			n := len(c02Catalogue())
 			if tier == "thorough" {
-				return n * 6
+				return n*6 + 24
 			}
-			return n
+			return n + 4
 		},
 		CaseTimeout: func(string) time.Duration { return 5 * time.Minute },
 		Rule: "one case = one whole-server run of a catalogue entry (stream shape × gop_num{0,1,2} × frame cap{0,3}; shapes: A/V, video-only, audio-only, G.711, Opus+video, sequence-header change at a GOP boundary and mid-GOP, mid-GOP metadata, long GOP, and re-publish histories A/V→audio-only, audio-only→A/V, A/V→A/V) in which an RTMP, an HTTP-FLV and an HTTP-TS joiner are attached at EVERY message index (publisher paused, exact admission index). " +
-			"oracle (Appendix A.1 of DESIGN.md): latest metadata/sequence headers before media and nothing else; header-in-force register equals the header each frame was published under; first video frame is a key frame; replayed GOPs are the last min(gop_num, #keys) GOPs, oldest first, prefixes cut only at cap/cap+1; live continues at the next message (or next key frame when nothing was replayed and the incarnation has video); audio-only incarnations get one of the next 3 audio frames; TS: PAT,PMT first, first video PES random-access with SPS/PPS of the header in force and carrying the key frame the replay rule names (oldest of the last min(gop_num,#keys) GOPs, else the next key frame; never a frame of an earlier incarnation). rtmp, http-flv and http-ts get different gop_num / cap values in two thirds of the cases (each protocol has its own setting). cell = protocol × shape × gop × cap × join class. thorough repeats the catalogue with other seeds (frame sizes / timestamps).",
+			"oracle (Appendix A.1 of DESIGN.md): latest metadata/sequence headers before media and nothing else; header-in-force register equals the header each frame was published under; first video frame is a key frame; replayed GOPs are the last min(gop_num, #keys) GOPs, oldest first, prefixes cut only at cap/cap+1; live continues at the next message (or next key frame when nothing was replayed and the incarnation has video); audio-only incarnations get one of the next 3 audio frames; TS: PAT,PMT first, first video PES random-access with SPS/PPS of the header in force and carrying the key frame the replay rule names (oldest of the last min(gop_num,#keys) GOPs, else the next key frame; never a frame of an earlier incarnation). rtmp, http-flv and http-ts get different gop_num / cap values in two thirds of the cases (each protocol has its own setting). cell = protocol × shape × gop × cap × join class. thorough repeats the catalogue with other seeds (frame sizes / timestamps). Plus RTSP-to-RTSP cases: a publisher over interleaved TCP whose frames span many RTP packets and up to 10 subscribers whose PLAY completes between two packets, six of them between two fragments of a key frame - the first video packet each receives must start a key-frame access unit.",
 		Assumptions: []string{"reference RTMP/FLV/TS decoders (harness/ref)", "generated streams are decodable from their start (first video frame after a sequence header is a key frame)",
-			"RTSP joiners are covered by C06's RTSP consumer start checks"},
+			"RTSP joiners of an RTMP-published stream are covered by C06's RTSP consumer start checks; RTSP joiners of an RTSP-published stream by the rtsp-join cases here"},
 		MinCells: 20,
 		Run: func(c *fw.Ctx, i int) {
 			cat := c02Catalogue()
+			if base := map[bool]int{true: len(cat) * 6, false: len(cat)}[c.Tier == "thorough"]; i >= base {
+				c02RtspJoin(c, i-base)
+				return
+			}
 			cs := cat[i%len(cat)]
 			cs.Rot = (cs.Rot + i/len(cat)) % 3
 			sc := c02Scenario(cs, i)
